@@ -401,7 +401,30 @@ pub fn run_check<P: Property>(p: &P, st: &Settings) -> i32 {
     let chunk = 16u64;
     let survey = std::env::var_os("VERIF_SURVEY").is_some();
 
+    // harness stall guard: a run that makes no progress for 10 minutes is a harness error (exit 2),
+    // never a verdict. (Code under test that fails to terminate is caught by the simulated step
+    // clock long before; this only protects against bugs in generators and oracles.)
+    let completed = AtomicU64::new(0);
+    let finished = AtomicBool::new(false);
     let aggs: Vec<Agg> = std::thread::scope(|sc| {
+        sc.spawn(|| {
+            let mut last = 0u64;
+            let mut idle = 0u32;
+            while !finished.load(Ordering::Relaxed) {
+                std::thread::sleep(std::time::Duration::from_millis(500));
+                let c = completed.load(Ordering::Relaxed);
+                if c != last {
+                    last = c;
+                    idle = 0;
+                } else {
+                    idle += 1;
+                    if idle > 1200 {
+                        eprintln!("HARNESS-ERROR: no run completed for 10 minutes (about {} of {} done): a generator or oracle is stuck", c, n);
+                        std::process::exit(2);
+                    }
+                }
+            }
+        });
         let handles: Vec<_> = (0..st.workers)
             .map(|_| {
                 sc.spawn(|| {
@@ -434,6 +457,7 @@ pub fn run_check<P: Property>(p: &P, st: &Settings) -> i32 {
                                 }
                             };
                             agg.absorb_obs(run, &obs, keep_digests);
+                            completed.fetch_add(1, Ordering::Relaxed);
                             if sample_idx.contains(&run) {
                                 let v = json!({"run": run, "trace": serde_json::to_value(&trace).unwrap_or(Value::Null),
                                     "executions": obs.execs, "steps": obs.steps, "failures": fails.len()});
@@ -471,7 +495,9 @@ pub fn run_check<P: Property>(p: &P, st: &Settings) -> i32 {
                 })
             })
             .collect();
-        handles.into_iter().map(|h| h.join().expect("worker thread")).collect()
+        let out = handles.into_iter().map(|h| h.join().expect("worker thread")).collect();
+        finished.store(true, Ordering::Relaxed);
+        out
     });
     if let Some(m) = harness_err.lock().unwrap().take() {
         eprintln!("HARNESS-ERROR: {}", m);
